@@ -1405,6 +1405,19 @@ pub fn replay(rp: &Value) -> Result<Option<Violation>, String> {
 				v
 			}))
 		}
+		Some("mesh") => {
+			let seed = rp["case_seed"].as_u64().ok_or("case_seed missing")?;
+			let rs = rp["run_seed"].as_u64().ok_or("run_seed missing")?;
+			let n_nodes = rp["nodes"].as_u64().unwrap_or(3) as usize;
+			let ops: Vec<MOp> = serde_json::from_value(rp["ops"].clone()).map_err(|e| e.to_string())?;
+			let (mut world, start) = crate::poolsim::build_world(seed)?;
+			let out = run_mesh(&mut world, start, n_nodes, &ops, rs, "mesh-replay");
+			world.cleanup();
+			Ok(out.violation.map(|(_, mut v)| {
+				v.replay = rp.clone();
+				v
+			}))
+		}
 		Some("hostile") => {
 			// the whole case is cheap and deterministic: run it again and report what it reports
 			let seed = rp["case_seed"].as_u64().ok_or("case_seed missing")?;
@@ -2107,6 +2120,19 @@ pub fn hostile_case(tier: &str, seed: u64, case: u64) -> CaseResult {
 			}
 		}
 	}
+	// transactions with nothing in them (the encoding is well formed: offset, three zero counts)
+	{
+		let mut body = vec![0u8; 32];
+		body[31] = 1;
+		body.extend_from_slice(&[0u8; 24]);
+		for (ty, name) in [(Type::Transaction, "tx-empty"), (Type::StemTransaction, "stemtx-empty")] {
+			let mut f = frame_of(ty, Hash::from_vec(&[0u8; 32]), v);
+			f.truncate(11);
+			refit(&mut f, body.len() as u64);
+			f.extend_from_slice(&body);
+			msgs.push((name.into(), f));
+		}
+	}
 	msgs.push(("txhashsetarchive-unsolicited-0".into(), frame_of(Type::TxHashSetArchive, TxHashSetArchive { hash: ah, height: 20, bytes: 0 }, v)));
 	msgs.push(("txhashsetarchive-unsolicited-huge".into(), frame_of(Type::TxHashSetArchive, TxHashSetArchive { hash: ah, height: 20, bytes: 1 << 40 }, v)));
 	let mut log: Vec<String> = vec![format!("seed {} pibd_status {}", seed, pibd_status)];
@@ -2201,6 +2227,567 @@ pub fn hostile_case(tier: &str, seed: u64, case: u64) -> CaseResult {
 	drop(node);
 	let _ = std::fs::remove_dir_all(&dir);
 	let _ = std::fs::remove_dir_all(&scratch);
+	world.cleanup();
+	res.wall_s = t0.elapsed().as_secs_f64();
+	res
+}
+
+// ------------------------------------------------------------------------------------------
+// scenario E: a mesh of real nodes. Every node has its complete p2p stack; the simulator is every
+// wire between them (it relays frames, holds them while a link is partitioned, delivers them in a
+// seeded link order). Blocks are mined on a node from that node's own pool and enter the network
+// the way a miner's block does (process_block with MINE -> compact block broadcast); transactions
+// enter a node the way the API pushes them and travel on by the node's own relay (fluff broadcast,
+// Dandelion stem to its one outbound peer). (C03, C14)
+
+/// The frame a decoded message re-encodes to (what the sending node wrote).
+fn reencode(m: Message, v: ProtocolVersion) -> Option<(String, Vec<u8>)> {
+	let d = describe(&m).split('(').next().unwrap_or("").to_string();
+	let f = match m {
+		Message::Ping(_) | Message::Pong(_) | Message::Unknown(_) | Message::Attachment(_, _) => return None,
+		Message::BanReason(x) => frame_of(Type::BanReason, x, v),
+		Message::TransactionKernel(h) => frame_of(Type::TransactionKernel, h, v),
+		Message::GetTransaction(h) => frame_of(Type::GetTransaction, h, v),
+		Message::Transaction(t) => frame_of(Type::Transaction, t, v),
+		Message::StemTransaction(t) => frame_of(Type::StemTransaction, t, v),
+		Message::GetBlock(h) => frame_of(Type::GetBlock, h, v),
+		Message::Block(b) => {
+			let b: Block = b.into();
+			frame_of(Type::Block, b, v)
+		}
+		Message::GetCompactBlock(h) => frame_of(Type::GetCompactBlock, h, v),
+		Message::CompactBlock(b) => {
+			let b: grin_core::core::CompactBlock = b.into();
+			frame_of(Type::CompactBlock, b, v)
+		}
+		Message::GetHeaders(l) => frame_of(Type::GetHeaders, l, v),
+		Message::Header(h) => {
+			let h: BlockHeader = h.into();
+			frame_of(Type::Header, h, v)
+		}
+		Message::Headers(h) => frame_of(Type::Headers, Headers { headers: h.headers }, v),
+		Message::GetPeerAddrs(x) => frame_of(Type::GetPeerAddrs, x, v),
+		Message::PeerAddrs(x) => frame_of(Type::PeerAddrs, x, v),
+		Message::TxHashSetRequest(x) => frame_of(Type::TxHashSetRequest, x, v),
+		Message::TxHashSetArchive(_) => return None,
+		Message::GetOutputBitmapSegment(x) => frame_of(Type::GetOutputBitmapSegment, x, v),
+		Message::OutputBitmapSegment(x) => frame_of(Type::OutputBitmapSegment, x, v),
+		Message::GetOutputSegment(x) => frame_of(Type::GetOutputSegment, x, v),
+		Message::OutputSegment(x) => frame_of(Type::OutputSegment, x, v),
+		Message::GetRangeProofSegment(x) => frame_of(Type::GetRangeProofSegment, x, v),
+		Message::RangeProofSegment(x) => frame_of(Type::RangeProofSegment, x, v),
+		Message::GetKernelSegment(x) => frame_of(Type::GetKernelSegment, x, v),
+		Message::KernelSegment(x) => frame_of(Type::KernelSegment, x, v),
+	};
+	Some((d, f))
+}
+
+#[derive(Clone, Debug, serde_derive::Serialize, serde_derive::Deserialize, PartialEq)]
+pub enum MOp {
+	/// node mines a block from its own pool (or empty) on its own head
+	Mine { node: usize, from_pool: bool },
+	/// a wallet pushes a transaction to a node (fluff or stem); `conflict`: it spends an output that a
+	/// transaction pushed earlier to some node spends as well
+	Push { node: usize, stem: bool, conflict: bool, r: u64 },
+	/// the links in `down` stall (frames are held) until the next Heal
+	Partition { down: Vec<usize> },
+	Heal,
+}
+
+struct MeshLink {
+	a: usize,
+	b: usize,
+	/// the connection on node a (a dialled out) and on node b (b accepted)
+	pa: SimPeer,
+	pb: SimPeer,
+	up: bool,
+	/// frames held while the link is down: (towards b?, name, bytes)
+	held: Vec<(bool, String, Vec<u8>)>,
+}
+
+pub struct MeshOutcome {
+	pub violation: Option<(usize, Violation)>,
+	pub log: Vec<String>,
+	pub steps: u64,
+	pub probes: BTreeMap<String, u64>,
+	pub faults: BTreeMap<String, u64>,
+	pub states: BTreeSet<u64>,
+}
+
+struct Mesh<'w> {
+	world: &'w mut World,
+	nodes: Vec<NetNode>,
+	links: Vec<MeshLink>,
+	rng: SimRng,
+	log: Vec<String>,
+	step: u64,
+	probes: BTreeMap<String, u64>,
+	faults: BTreeMap<String, u64>,
+	states: BTreeSet<u64>,
+	/// world block id of every node's head
+	heads: Vec<usize>,
+	last_td: Vec<u64>,
+	/// inputs of transactions pushed so far (for conflicts and to avoid accidental ones)
+	pushed_inputs: Vec<crate::world::OutInfo>,
+	base_blocks: usize,
+}
+
+impl<'w> Mesh<'w> {
+	fn probe(&mut self, k: &str) {
+		*self.probes.entry(k.into()).or_insert(0) += 1;
+	}
+	fn v(&self, prop: &str, key: &str, what: String) -> Violation {
+		viol(prop, &format!("mesh-{}", key), format!("step {}: {}", self.step, what))
+	}
+
+	/// Two rounds of ping/pong over every connection of every node (after the first, every frame
+	/// injected so far has been handled; after the second, everything those handlers queued anywhere
+	/// has been read), then forwarding, until a round forwards nothing.
+	fn settle(&mut self) -> Result<(), Violation> {
+		for _iter in 0..400 {
+			for _phase in 0..2 {
+				for l in self.links.iter_mut() {
+					for p in [&mut l.pa, &mut l.pb] {
+						if !p.alive {
+							continue;
+						}
+						if !p.ping() {
+							continue;
+						}
+						if p.read_to_pong(Duration::from_secs(30)) == ReadEnd::Stuck {
+							let pn = take_panics();
+							let what = pn.first().cloned().unwrap_or_else(|| "a connection neither answered a ping nor closed within 30 s".to_string());
+							return Err(viol("C03", if pn.is_empty() { "mesh-connection-stuck" } else { "mesh-node-thread-panicked" }, what));
+						}
+					}
+				}
+			}
+			if let Some(p) = take_panics().first() {
+				return Err(self.v("C03", "node-thread-panicked", p.clone()));
+			}
+			let mut moved = false;
+			let mut order: Vec<usize> = (0..self.links.len()).collect();
+			self.rng.shuffle(&mut order);
+			for k in order {
+				let (from_a, from_b) = {
+					let l = &mut self.links[k];
+					(std::mem::take(&mut l.pa.inbox), std::mem::take(&mut l.pb.inbox))
+				};
+				for (to_b, msgs) in [(true, from_a), (false, from_b)] {
+					for m in msgs {
+						let v = if to_b { self.links[k].pb.version } else { self.links[k].pa.version };
+						if let Some((name, bytes)) = reencode(m, v) {
+							let (a, b) = (self.links[k].a, self.links[k].b);
+							let (src, dst) = if to_b { (a, b) } else { (b, a) };
+							if self.links[k].up {
+								self.log.push(format!("  n{} -> n{} {}", src, dst, name));
+								let l = &mut self.links[k];
+								let p = if to_b { &mut l.pb } else { &mut l.pa };
+								p.send_bytes(&bytes);
+								moved = true;
+								*self.probes.entry(format!("relayed:{}", name)).or_insert(0) += 1;
+							} else {
+								self.links[k].held.push((to_b, name, bytes));
+								*self.faults.entry("frame_held_by_partition".into()).or_insert(0) += 1;
+							}
+						}
+					}
+				}
+			}
+			if !moved {
+				return Ok(());
+			}
+		}
+		Err(self.v("C03", "traffic-never-settles", "the nodes were still sending to each other after 400 relay rounds".into()))
+	}
+
+	fn absorb_events(&mut self) -> Result<(), Violation> {
+		for n in 0..self.nodes.len() {
+			for (h, _k) in self.nodes[n].take_events() {
+				if self.world.id_of_hash(&h).is_none() {
+					return Err(self.v("C03", "accepted-unknown-block", format!("node {} accepted block {} which nobody mined", n, h)));
+				}
+			}
+			let d = self.nodes[n].digest().map_err(|e| self.v("C03", "digest", e))?;
+			self.states.insert(d.hash64());
+			let hid = match self.world.id_of_hash(&d.head) {
+				Some(i) => i,
+				None => return Err(self.v("C03", "head-unknown", format!("node {} head {} is no mined block", n, d.head))),
+			};
+			if d.head_td < self.last_td[n] {
+				return Err(self.v("C03", "head-work-decreased", format!("node {}: head total difficulty went from {} to {}", n, self.last_td[n], d.head_td)));
+			}
+			self.last_td[n] = d.head_td;
+			self.heads[n] = hid;
+			self.log.push(format!("  n{} {}", n, d.short()));
+		}
+		Ok(())
+	}
+
+	/// C14 on every node: what its txpool holds applies together on its head; so do txpool + stempool.
+	fn pool_invariants(&mut self) -> Result<(), Violation> {
+		use grin_core::core::transaction::{self, Weighting};
+		for n in 0..self.nodes.len() {
+			let (txs, stem) = {
+				let p = self.nodes[n].pool.read();
+				(p.txpool.all_transactions(), p.stempool.all_transactions())
+			};
+			let header = self.nodes[n].chain.head_header().map_err(|e| self.v("C14", "head-error", format!("{:?}", e)))?;
+			for (name, set) in [("txpool", txs.clone()), ("txpool+stempool", txs.iter().chain(stem.iter()).cloned().collect::<Vec<_>>())] {
+				if set.is_empty() {
+					continue;
+				}
+				let agg = transaction::aggregate(&set).map_err(|e| self.v("C14", "pool-aggregate-fails", format!("node {}: {} does not aggregate: {:?}", n, name, e)))?;
+				if let Err(e) = agg.validate(Weighting::NoLimit) {
+					return Err(self.v("C14", "pool-aggregate-invalid", format!("node {}: aggregate of {} is invalid: {:?}", n, name, e)));
+				}
+				if let Err(e) = self.nodes[n].chain.validate_tx(&agg) {
+					return Err(self.v("C14", "pool-not-applicable-on-head", format!("node {}: aggregate of {} ({} txs) cannot be applied on its head h{}: {:?}", n, name, set.len(), header.height, e)));
+				}
+			}
+			if !txs.is_empty() {
+				self.probe("node_pool_nonempty_checked");
+			}
+		}
+		Ok(())
+	}
+
+	fn after_op(&mut self) -> Result<(), Violation> {
+		self.settle()?;
+		self.absorb_events()?;
+		self.pool_invariants()
+	}
+
+	fn exec(&mut self, op: &MOp) -> Result<(), Violation> {
+		self.step += 1;
+		self.log.push(format!("step {} {:?}", self.step, op));
+		match op {
+			MOp::Mine { node, from_pool } => {
+				let n = *node;
+				let parent = self.heads[n];
+				let txs = if *from_pool {
+					self.nodes[n].pool.read().prepare_mineable_transactions().map_err(|e| self.v("C14", "prepare-mineable-failed", format!("node {}: {:?}", n, e)))?
+				} else {
+					vec![]
+				};
+				let dt = self.world.draw_dt();
+				let b = match self.world.assemble(parent, &txs, dt, None) {
+					Ok(b) => b,
+					Err(e) => return Err(self.v("C14", "mineable-set-does-not-assemble", format!("node {}: the set offered for mining ({} txs) does not assemble on its head: {}", n, txs.len(), e))),
+				};
+				let ntx = txs.len();
+				let id = match self.world.add_block(parent, b.clone(), n, txs, format!("mined-by-n{}", n)) {
+					Ok(i) => i,
+					Err(e) => return Err(self.v("C14", "mineable-block-refused", format!("node {}: {}", n, e))),
+				};
+				if ntx > 0 {
+					self.probe("block_mined_with_pool_transactions");
+				}
+				if let Err(e) = self.nodes[n].chain.process_block(b, grin_chain::Options::MINE) {
+					return Err(self.v("C03", "own-block-refused", format!("node {} refused the block #{} mined on its own head: {:?}", n, id, e)));
+				}
+				self.after_op()
+			}
+			MOp::Push { node, stem, conflict, r } => {
+				let n = *node;
+				let mut rng = SimRng::new(*r);
+				let head = self.heads[n];
+				let h = self.world.blocks[head].height + 1;
+				let spendable = World::spendable(&self.world.blocks[head].ledger, h);
+				let used: BTreeSet<crate::world::CommitKey> = self.pushed_inputs.iter().map(|o| crate::world::ckey(&o.commit)).collect();
+				let cand: Vec<crate::world::OutInfo> = if *conflict {
+					let live: BTreeSet<crate::world::CommitKey> = spendable.iter().map(|o| crate::world::ckey(&o.commit)).collect();
+					self.pushed_inputs.iter().filter(|o| live.contains(&crate::world::ckey(&o.commit))).cloned().collect()
+				} else {
+					spendable.into_iter().filter(|o| !used.contains(&crate::world::ckey(&o.commit))).collect()
+				};
+				if cand.is_empty() {
+					self.log.push("  skipped".into());
+					return Ok(());
+				}
+				let x = rng.pick(&cand).clone();
+				let fee = grin_core::libtx::tx_fee(1, 2, 1);
+				if x.value <= fee + 2 {
+					return Ok(());
+				}
+				let a = rng.range(1, x.value - fee - 1);
+				let (tx, _) = self.world.wallet.build_tx(
+					&[x.clone()],
+					&[a, x.value - fee - a],
+					None,
+					grin_core::core::KernelFeatures::Plain { fee: grin_core::core::FeeFields::new(0, fee).unwrap() },
+				);
+				if !*conflict {
+					self.pushed_inputs.push(x);
+				} else {
+					self.probe("conflicting_transaction_pushed");
+				}
+				let header = self.nodes[n].chain.head_header().map_err(|e| self.v("C14", "head-error", format!("{:?}", e)))?;
+				let res = self.nodes[n].pool.write().add_to_pool(grin_pool::TxSource::PushApi, tx, *stem, &header);
+				self.log.push(format!("  push -> {}", if res.is_ok() { "ok".to_string() } else { format!("{:?}", res) }));
+				if res.is_ok() {
+					self.probe(if *stem { "stem_pushed" } else { "fluff_pushed" });
+				}
+				self.after_op()
+			}
+			MOp::Partition { down } => {
+				for k in down {
+					if *k < self.links.len() {
+						self.links[*k].up = false;
+					}
+				}
+				*self.faults.entry("partition".into()).or_insert(0) += 1;
+				Ok(())
+			}
+			MOp::Heal => {
+				self.heal()?;
+				self.after_op()
+			}
+		}
+	}
+
+	fn heal(&mut self) -> Result<(), Violation> {
+		for k in 0..self.links.len() {
+			self.links[k].up = true;
+			let held = std::mem::take(&mut self.links[k].held);
+			for (to_b, name, bytes) in held {
+				let (a, b) = (self.links[k].a, self.links[k].b);
+				self.log.push(format!("  (healed) n{} -> n{} {}", if to_b { a } else { b }, if to_b { b } else { a }, name));
+				let l = &mut self.links[k];
+				let p = if to_b { &mut l.pb } else { &mut l.pa };
+				p.send_bytes(&bytes);
+				*self.probes.entry("held_frame_delivered_after_heal".into()).or_insert(0) += 1;
+			}
+		}
+		Ok(())
+	}
+}
+
+pub fn gen_mesh_ops(rng: &mut SimRng, n_nodes: usize, n_links: usize, thorough: bool) -> Vec<MOp> {
+	let n = if thorough { rng.range(30, 60) } else { rng.range(18, 30) };
+	let mut ops = vec![];
+	let mut parted = false;
+	for _ in 0..n {
+		let k = rng.below(100);
+		let node = rng.usize_below(n_nodes);
+		if k < 45 {
+			ops.push(MOp::Push { node, stem: rng.chance(1, 3), conflict: rng.chance(1, 8), r: rng.next_u64() });
+		} else if k < 80 {
+			ops.push(MOp::Mine { node, from_pool: rng.chance(3, 4) });
+		} else if k < 90 && !parted {
+			let mut down: Vec<usize> = (0..n_links).filter(|_| rng.chance(1, 2)).collect();
+			if down.is_empty() {
+				down.push(rng.usize_below(n_links));
+			}
+			ops.push(MOp::Partition { down });
+			parted = true;
+		} else if parted {
+			ops.push(MOp::Heal);
+			parted = false;
+		} else {
+			ops.push(MOp::Mine { node, from_pool: true });
+		}
+	}
+	ops
+}
+
+pub fn run_mesh(world: &mut World, start: usize, n_nodes: usize, ops: &[MOp], seed: u64, tag: &str) -> MeshOutcome {
+	install_panic_recorder();
+	grin_util::verif::set_pacing_off(true);
+	let mut out = MeshOutcome {
+		violation: None,
+		log: vec![format!("seed {} nodes {}", seed, n_nodes)],
+		steps: 0,
+		probes: BTreeMap::new(),
+		faults: BTreeMap::new(),
+		states: BTreeSet::new(),
+	};
+	let base: Vec<Block> = world.path_to(start).into_iter().filter(|i| *i != 0).map(|i| world.blocks[i].block.clone()).collect();
+	let pool_cfg = PoolConfig {
+		accept_fee_base: grin_core::global::get_accept_fee_base(),
+		reorg_cache_period: 30,
+		max_pool_size: 50,
+		max_stempool_size: 50,
+		mineable_max_weight: grin_core::global::max_block_weight(),
+	};
+	let mut dirs = vec![];
+	let mut nodes = vec![];
+	for i in 0..n_nodes {
+		let dir = fresh_dir(&format!("{}-n{}", tag, i));
+		let node = match NetNode::assemble(&dir, world.genesis.clone(), pool_cfg.clone(), false) {
+			Ok(n) => n,
+			Err(e) => {
+				out.violation = Some((0, viol("C03", "harness-assemble", e)));
+				return out;
+			}
+		};
+		for b in &base {
+			if let Err(e) = node.chain.process_block(b.clone(), world.opts) {
+				out.violation = Some((0, viol("C03", "harness-base", format!("{:?}", e))));
+				return out;
+			}
+		}
+		node.take_events();
+		dirs.push(dir);
+		nodes.push(node);
+	}
+	let (td, hh) = (world.blocks[start].total_difficulty, world.blocks[start].height);
+	// a ring: node i dials node i+1, so every node has exactly one outbound peer (its Dandelion relay)
+	let mut links = vec![];
+	let n_links = if n_nodes == 2 { 1 } else { n_nodes };
+	for i in 0..n_links {
+		let (a, b) = (i, (i + 1) % n_nodes);
+		let pa = connect_outbound(&nodes[a], 10 + i, td, hh, Capabilities::default());
+		let pb = connect_inbound(&nodes[b], 20 + i, td, hh, Capabilities::default());
+		match (pa, pb) {
+			(Ok(pa), Ok(pb)) => links.push(MeshLink { a, b, pa, pb, up: true, held: vec![] }),
+			(x, y) => {
+				out.violation = Some((0, viol("C03", "harness-connect", format!("{:?} {:?}", x.err(), y.err()))));
+				return out;
+			}
+		}
+	}
+	let base_blocks = world.blocks.len();
+	let mut mesh = Mesh {
+		world,
+		nodes,
+		links,
+		rng: SimRng::new(seed).fork("mesh"),
+		log: std::mem::take(&mut out.log),
+		step: 0,
+		probes: BTreeMap::new(),
+		faults: BTreeMap::new(),
+		states: BTreeSet::new(),
+		heads: vec![start; n_nodes],
+		last_td: vec![0; n_nodes],
+		pushed_inputs: vec![],
+		base_blocks,
+	};
+	let mut violation = None;
+	for (i, op) in ops.iter().enumerate() {
+		if let Err(v) = mesh.exec(op) {
+			violation = Some((i, v));
+			break;
+		}
+	}
+	// quiescence: every link up, one more block on the best head, then everybody agrees
+	if violation.is_none() {
+		let r = (|| -> Result<(), Violation> {
+			mesh.step += 1;
+			mesh.log.push(format!("step {} final: heal, one more block on the best head", mesh.step));
+			mesh.heal()?;
+			mesh.after_op()?;
+			let best = (0..mesh.nodes.len()).max_by_key(|n| (mesh.last_td[*n], std::cmp::Reverse(*n))).unwrap_or(0);
+			mesh.exec(&MOp::Mine { node: best, from_pool: true })?;
+			let digests: Vec<StateDigest> = (0..mesh.nodes.len()).map(|n| mesh.nodes[n].digest()).collect::<Result<Vec<_>, _>>().map_err(|e| mesh.v("C03", "digest", e))?;
+			let winner = mesh.world.winner();
+			for (n, d) in digests.iter().enumerate() {
+				if d.head != mesh.world.blocks[winner].hash {
+					return Err(mesh.v("C03", "final-head-not-winner", format!("with every link up and nothing in flight node {} sits on {}@{} (td {}) but the most-work block mined is #{} {}@{} (td {})", n, d.head, d.head_height, d.head_td, winner, mesh.world.blocks[winner].hash, mesh.world.blocks[winner].height, mesh.world.blocks[winner].total_difficulty)));
+				}
+				if !d.same_body(&digests[0]) {
+					return Err(mesh.v("C03", "final-states-differ", format!("node {} and node 0 have the same head but different state: {} vs {}", n, d.short(), digests[0].short())));
+				}
+			}
+			let bd = mesh.world.builder.digest().map_err(|e| mesh.v("C03", "digest", format!("{:?}", e)))?;
+			if bd.head == digests[0].head && !bd.same_body(&digests[0]) {
+				return Err(mesh.v("C03", "final-roots-differ", format!("the nodes' state differs from the block builder's on the same head: {} vs {}", digests[0].short(), bd.short())));
+			}
+			for n in 0..mesh.nodes.len() {
+				if let Err(e) = mesh.nodes[n].chain.validate(false) {
+					return Err(mesh.v("C03", "final-validate-failed", format!("node {}: {:?}", n, e)));
+				}
+			}
+			mesh.probe("mesh_converged");
+			Ok(())
+		})();
+		if let Err(v) = r {
+			violation = Some((ops.len(), v));
+		}
+	}
+	for l in mesh.links.iter_mut() {
+		l.pa.close();
+		l.pb.close();
+	}
+	for n in mesh.nodes.iter() {
+		n.shutdown();
+	}
+	out.log = std::mem::take(&mut mesh.log);
+	out.steps = mesh.step;
+	out.probes = std::mem::take(&mut mesh.probes);
+	out.faults = std::mem::take(&mut mesh.faults);
+	out.states = std::mem::take(&mut mesh.states);
+	out.violation = violation;
+	let base_blocks = mesh.base_blocks;
+	let Mesh { world, nodes, links, .. } = mesh;
+	drop(links);
+	drop(nodes);
+	// the blocks mined during the run leave the world again (the next run starts from the same base);
+	// the builder keeps them, which is harmless: they are valid blocks on side branches
+	world.blocks.truncate(base_blocks);
+	for d in dirs {
+		let _ = std::fs::remove_dir_all(d);
+	}
+	out
+}
+
+/// One mesh case: a pool world, several seeded runs of 2-3 nodes.
+pub fn mesh_case(property: &str, tier: &str, seed: u64, case: u64) -> CaseResult {
+	let t0 = Instant::now();
+	let thorough = tier == "thorough";
+	let mut res = CaseResult::new(case, seed);
+	let (mut world, start) = match crate::poolsim::build_world(seed) {
+		Ok(w) => w,
+		Err(e) => {
+			res.harness_error = Some(format!("mesh world: {}", e));
+			return res;
+		}
+	};
+	let rng = SimRng::new(seed);
+	let runs = if thorough { 8 } else { 3 };
+	for run in 0..runs {
+		let mut rr = rng.fork(&format!("mesh{}", run));
+		// two nodes, three (everybody adjacent) and a ring of four (blocks and transactions need two hops)
+		let n_nodes = match run % 3 {
+			2 => 2,
+			1 => 4,
+			_ => 3,
+		};
+		let n_links = if n_nodes == 2 { 1 } else { n_nodes };
+		let ops = gen_mesh_ops(&mut rr, n_nodes, n_links, thorough);
+		let rs = rr.next_u64();
+		let out = run_mesh(&mut world, start, n_nodes, &ops, rs, &format!("mesh-c{}r{}", case, run));
+		res.runs += 1;
+		res.probe("netsim_runs");
+		res.probe("mesh_runs");
+		res.steps += out.steps;
+		for (k, v) in &out.probes {
+			res.probe_n(&format!("mesh_{}", k), *v);
+		}
+		for (k, v) in &out.faults {
+			res.fault_n(&format!("mesh:{}", k), *v);
+		}
+		for s in &out.states {
+			res.states.insert(*s);
+		}
+		res.run_digests.push((fnv64(out.log.join("\n").as_bytes()), true));
+		if res.samples.is_empty() {
+			res.samples.push(json!({"engine": "netsim-mesh", "nodes": n_nodes, "ops_head": ops.iter().take(14).map(|o| format!("{:?}", o)).collect::<Vec<_>>(), "log_tail": out.log.iter().rev().take(5).cloned().collect::<Vec<_>>()}));
+		}
+		if let Some((idx, mut v)) = out.violation {
+			// violations are reported under the property the failing oracle belongs to; a check only
+			// alarms on its own
+			let own = v.key.starts_with(&format!("{}:", property));
+			v.replay = json!({"engine": "netsim", "mode": "mesh", "property": property, "case_seed": seed, "run_seed": rs, "nodes": n_nodes, "failed_at_op": idx,
+				"ops": serde_json::to_value(&ops).unwrap_or(Value::Null), "log_tail": out.log.iter().rev().take(25).cloned().collect::<Vec<_>>()});
+			if own {
+				res.violations.push(v);
+				break;
+			} else {
+				res.probe("mesh_violation_left_to_other_property");
+			}
+		}
+	}
 	world.cleanup();
 	res.wall_s = t0.elapsed().as_secs_f64();
 	res
